@@ -32,6 +32,12 @@ def c16():
               "not at the buffer start, EOF/timeout reported, stop from inside a callback, or a fault. "
               "Check file_tasks (same unit): tp_task_rw_handler direct transfers on in-memory files - reads across the end of file, writes that grow the file "
               "or run into a sealed size; exactly one report, bytes / cursors / file content exact. "
+              "Check task_scripts (same unit): phase scripts on one receive task (persistent / dispatch, callback-after-every-read on/off, timeout none/60/100 ms, "
+              "window anywhere in a 32..2048 byte buffer): peer writes smaller than the window (silent partial progress), waits for a timeout, tp_task_stop + "
+              "tp_task_start with a new window on the owning thread, TP_TASK_CB_NONE answers to a timeout or to the k-th data report (the task is paused), data "
+              "arriving while paused, tp_task_enable(1); the stream always goes on at the end. Oracle over the ordered history: reported count == bytes moved "
+              "into the window since the previous report / (re)start and those bytes are the next bytes of the stream, no report between a NONE answer and the "
+              "re-enable / restart, a paused task does not read (FIONREAD at the re-enable), the next full window is reported, nothing after destroy. "
               "Unit C16_conn, check pkt_histories: datagram receiver (tp_task_pkt_rcvr_create) on an AF_UNIX SOCK_DGRAM pair or UDP 127.0.0.1, "
               "1-10 datagrams of 0..buffer+40 bytes whose bytes encode (datagram, offset), sent before/after the start in bursts, with short pauses, "
               "waits for delivery or waits for a timeout report; buffer 16..512 with the in-tree initial window, a busy prefix or an arbitrary window; "
